@@ -1,25 +1,15 @@
 import WS.Model.Handshake
+import WS.Proofs.Negotiation
 /-
   C14 — permessage-deflate is negotiated soundly and both ends agree on its parameters.
   Statements about the model of selectDeflate / acceptDeflate / compressionOptions.String /
   verifyServerExtensions and the per-direction takeover selectors.
 -/
 namespace WS.Props.C14
-open WS WS.Model
+open WS WS.Model WS.Proofs.Negotiation
 
-def pCNCT : Str := s "client_no_context_takeover"
-def pSNCT : Str := s "server_no_context_takeover"
-def pmd : Str := s "permessage-deflate"
-
-/-- RFC 7692 §7.1 offer parameters this server can honour: the two flags (without value),
-`client_max_window_bits` without value or with 8..15, and `server_max_window_bits=15` (the
-library cannot shrink its window, so smaller values must be declined). -/
-def paramOK (p : Str) : Bool :=
-  p == pCNCT || p == pSNCT || p == s "client_max_window_bits" || p == s "server_max_window_bits=15" ||
-  windowBitsValues.any (fun v => p == s "client_max_window_bits=" ++ v)
-
-/-- an honourable offer: every parameter acceptable, no parameter name repeated. -/
-def OfferOK (params : List Str) : Prop := (∀ p ∈ params, paramOK p = true) ∧ (params.map paramName).Nodup
+/- `pCNCT`, `pSNCT`, `pmd`, `paramOK`, `OfferOK` are defined (in this namespace) in
+   WS/Proofs/Negotiation.lean, which the helper lemmas need. -/
 
 /-- **server soundness, one offer**: an offer is accepted iff it is honourable, and then the options
 are the server mode's own plus exactly the flags the offer asks for — in particular
@@ -28,7 +18,10 @@ theorem acceptDeflate_iff (ext : Ext) (mode : Nat) (c : Copts) :
     acceptDeflate ext mode = some c ↔
       OfferOK ext.params ∧
       c = { cnct := (mode == 2) || ext.params.contains pCNCT, snct := (mode == 2) || ext.params.contains pSNCT } := by
-  sorry
+  unfold acceptDeflate
+  rw [acceptDeflate_go_iff]
+  simp only [GoSpec, OfferOK, modeOpts, List.not_mem_nil, not_false_eq_true, implies_true, true_and,
+    and_assoc]
 
 /-- **fallback**: the server takes the first permessage-deflate offer it can honour, skipping other
 extensions and declined offers; with compression disabled it takes none. -/
@@ -36,7 +29,11 @@ theorem selectDeflate_spec (exts : List Ext) (mode : Nat) :
     selectDeflate exts mode =
       if mode = 0 then none
       else (exts.filter (fun e => e.name == pmd)).findSome? (fun e => acceptDeflate e mode) := by
-  sorry
+  unfold selectDeflate
+  by_cases h : mode = 0
+  · simp [h]
+  · rw [if_neg (by simpa using h), if_neg h]
+    exact selectDeflate_go_eq mode exts
 
 /-- the response never carries a parameter a client may not receive: it is one of four strings. -/
 theorem response_strings (c : Copts) :
@@ -44,7 +41,7 @@ theorem response_strings (c : Copts) :
     coptsString c = s "permessage-deflate; client_no_context_takeover" ∨
     coptsString c = s "permessage-deflate; server_no_context_takeover" ∨
     coptsString c = s "permessage-deflate; client_no_context_takeover; server_no_context_takeover" := by
-  sorry
+  rcases c with ⟨_ | _, _ | _⟩ <;> decide +kernel
 
 def extHdr (v : Str) : Hdr := [(s "Sec-Websocket-Extensions", [v])]
 
@@ -53,7 +50,7 @@ def extHdr (v : Str) : Hdr := [(s "Sec-Websocket-Extensions", [v])]
 theorem response_understood (c0 c : Copts) :
     verifyServerExtensions (some c0) (extHdr (coptsString c)) =
       .ok (some { cnct := c0.cnct || c.cnct, snct := c.snct }) := by
-  sorry
+  rcases c with ⟨_ | _, _ | _⟩ <;> rcases c0 with ⟨_ | _, _ | _⟩ <;> decide +kernel
 
 /-- **client soundness**: whatever response a client accepts consists of exactly one
 permessage-deflate extension whose parameters are ones it can honour, and the options it adopts are
@@ -62,17 +59,36 @@ theorem client_sound (c0 c : Copts) (h : Hdr) (hv : verifyServerExtensions (some
     ∃ ext, websocketExtensions h = [ext] ∧ ext.name = pmd ∧
       (∀ p ∈ ext.params, p = pCNCT ∨ p = pSNCT ∨ hasPrefix (s "server_max_window_bits=") p = true) ∧
       c.snct = ext.params.contains pSNCT ∧ c.cnct = (c0.cnct || ext.params.contains pCNCT) := by
-  sorry
+  unfold verifyServerExtensions at hv
+  split at hv
+  · simp at hv
+  · rename_i ext hext
+    refine ⟨ext, hext, ?_⟩
+    simp only at hv
+    split at hv
+    · simp at hv
+    · rename_i hn
+      have hname : ext.name = pmd := by simpa [pmd] using hn
+      rw [verify_go_iff] at hv
+      obtain ⟨hall, rfl⟩ := hv
+      exact ⟨hname, hall, by simp, rfl⟩
+  · simp at hv
 
 /-- with compression off (nothing offered) any extension in the response is rejected. -/
 theorem client_no_offer (h : Hdr) (r : Option Copts) (hv : verifyServerExtensions none h = .ok r) :
     r = none ∧ websocketExtensions h = [] := by
-  sorry
+  unfold verifyServerExtensions at hv
+  split at hv
+  · rename_i he
+    exact ⟨by simpa [eq_comm] using hv, he⟩
+  · simp at hv
+  · simp at hv
 
 /-- no extension header means no compression, whatever was offered. -/
 theorem client_no_extension (c0 : Option Copts) (h : Hdr) (he : websocketExtensions h = []) :
     verifyServerExtensions c0 h = .ok none := by
-  sorry
+  unfold verifyServerExtensions
+  rw [he]
 
 /-- the handshake between two library endpoints in modes `cm` (client) and `sm` (server). -/
 def libHandshake (cm sm : Nat) : Option Copts × VerifyExt :=
@@ -89,12 +105,12 @@ theorem lib_to_lib_agree :
     ∀ cm ∈ [0, 1, 2], ∀ sm ∈ [0, 1, 2],
       (libHandshake cm sm).2 = .ok (libHandshake cm sm).1 ∧
       ((libHandshake cm sm).1.isSome = (cm != 0 && sm != 0)) := by
-  sorry
+  decide +kernel
 
 /-- **directions are consistent**: what one endpoint does when writing is what its peer assumes when
 reading, for every agreed option pair (including asymmetric ones) and both roles. -/
 theorem directions_consistent (client : Bool) (c : Copts) :
     writerTakeover client c = readerTakeover (!client) c := by
-  sorry
+  cases client <;> simp [writerTakeover, readerTakeover]
 
 end WS.Props.C14
